@@ -66,7 +66,7 @@ def drain_bundle():
     th = list(getattr(m, "THEOREMS", {}).get("C07", []))
     if not th:
         return [], [], []
-    return th, list(getattr(m, "MODULES", {}).get("C07", [])), list(getattr(m, "OBLIG", []))
+    return th, list(getattr(m, "MODULES", {}).get("C07", [])), list((getattr(m, "OBLIG_BY_PROP", None) or {}).get("C07", getattr(m, "OBLIG", [])))
 
 
 def life_args(ex):
